@@ -371,6 +371,21 @@ def fold_spectator_h(A, B):
     return (na, ea), (nb, eb)
 
 
+def _unmapped_side(side):
+    """R.unmapped_side with isotope labels cleared first: like stereo descriptors they are not carried by the ITS (element,
+    aromaticity, H count, charge, bond orders only), and an isotope-labelled hydrogen such as [2H] would otherwise survive
+    RemoveHs as an atom on the input side only (false alarm found by probing hand-made strings in round 5)"""
+    from rdkit import Chem
+    mol = Chem.MolFromSmiles(side)
+    if mol is None:
+        return None
+    for a in mol.GetAtoms():
+        a.SetAtomMapNum(0)
+        a.SetIsotope(0)
+    mol = Chem.RemoveHs(mol)
+    return sorted(Chem.MolToSmiles(mol, isomericSmiles=False).split("."))
+
+
 def string_clauses(rsmi, G, H, explicit_hydrogen=False, write_explicit=False, node_attrs=None):
     """parser monitor + its_to_rsmi(rsmi_to_its(r)) ~ r; demanded only for balanced, fully and uniquely mapped reactions"""
     import networkx as nx
@@ -414,7 +429,7 @@ def string_clauses(rsmi, G, H, explicit_hydrogen=False, write_explicit=False, no
         ok = nx.is_isomorphic(I1, I2, node_match=lambda x, y: x["lab"] == y["lab"], edge_match=lambda x, y: x["lab"] == y["lab"])
         if not ok:
             fails.append(dict(clause="string-equivalent", detail="its_to_rsmi(rsmi_to_its(r)) = %r is not atom-map-equivalent to r = %r" % (back, rsmi)))
-    if A2[2] or B2[2] or R.unmapped_side(a2) != R.unmapped_side(a) or R.unmapped_side(b2) != R.unmapped_side(b):
+    if A2[2] or B2[2] or _unmapped_side(a2) != _unmapped_side(a) or _unmapped_side(b2) != _unmapped_side(b):
         fails.append(dict(clause="string-unmapped", detail="unmapped sides differ: %r vs input %r" % (back, rsmi)))
     return fails, True
 
@@ -874,6 +889,13 @@ HAND_STR = [
     "[H+:5].[CH3:1][O-:2].[H+:3]>>[H+:5].[CH3:1][O:2][H:3]",
     "[H:5].[CH3:1][O-:2].[H+:3]>>[H:5].[CH3:1][O:2][H:3]",
     "[H-:5].[CH3:1][O-:2].[H+:3].[H:6][H:7]>>[H-:5].[CH3:1][O:2][H:3].[H:6][H:7]",
+    # hydride and proton both reacting; H2 homolysis; hydrogen exchange between HCl and H2; keto-enol shift of an explicit hydrogen;
+    # explicit hydrogen on an aromatic nitrogen that is substituted
+    "[H-:5].[CH3:1][CH:2]=[O:3].[H+:4]>>[CH3:1][CH:2]([H:5])[O:3][H:4]",
+    "[H:1][H:2]>>[H:1].[H:2]",
+    "[Cl:1][H:2].[H:3][H:4]>>[Cl:1][H:3].[H:2][H:4]",
+    "[CH3:1][C:2](=[O:3])[CH2:4][H:5]>>[CH3:1][C:2]([O:3][H:5])=[CH2:4]",
+    "[n:1]1([H:8])[cH:2][cH:3][cH:4][cH:5]1.[CH3:6][I:7]>>[n:1]1([CH3:6])[cH:2][cH:3][cH:4][cH:5]1.[I:7][H:8]",
 ]
 
 
